@@ -13,6 +13,7 @@ import (
 	"crypto/x509"
 	"encoding/hex"
 	"encoding/json"
+	"errors"
 	"fmt"
 	"net"
 	"os"
@@ -247,6 +248,50 @@ func AdversaryConnMode(protos []string, chain [][]byte, keyIdx int, holds, notTL
 		_ = client.Close()
 	}()
 	return server
+}
+
+// AdversaryConnReset is a peer that completes the handshake (presenting chain, signing with universe key keyIdx) and then resets the
+// connection: from the moment the server has read the client's last handshake flight every write on the server's
+// end fails, so the close_notify of the server's Close fails. (A real RST races with the server; failing the
+// writes on the server's end of the same loopback connection is the deterministic equivalent.)
+func AdversaryConnReset(protos []string, chain [][]byte, keyIdx int) net.Conn {
+	server, client := connPair()
+	go func() {
+		tc := tls.Client(client, &tls.Config{NextProtos: protos, InsecureSkipVerify: true, MinVersion: tls.VersionTLS13,
+			GetClientCertificate: func(*tls.CertificateRequestInfo) (*tls.Certificate, error) {
+				return &tls.Certificate{Certificate: chain, PrivateKey: edKey(keyIdx)}, nil
+			}})
+		_ = client.SetDeadline(time.Now().Add(5 * time.Second))
+		_ = tc.Handshake()
+		buf := make([]byte, 1)
+		_ = client.SetReadDeadline(time.Now().Add(500 * time.Millisecond))
+		_, _ = tc.Read(buf)
+		_ = client.Close()
+	}()
+	return &resetConn{Conn: server}
+}
+
+// resetConn fails every write once a read has delivered data after the first write (the server's flight): that read
+// is the client's Finished, the last thing a TLS 1.3 server reads in its handshake.
+type resetConn struct {
+	net.Conn
+	wrote, reset bool
+}
+
+func (c *resetConn) Write(p []byte) (int, error) {
+	if c.reset {
+		return 0, &net.OpError{Op: "write", Net: "tcp", Err: errors.New("connection reset by peer")}
+	}
+	c.wrote = true
+	return c.Conn.Write(p)
+}
+
+func (c *resetConn) Read(p []byte) (int, error) {
+	n, err := c.Conn.Read(p)
+	if c.wrote && n > 0 {
+		c.reset = true
+	}
+	return n, err
 }
 
 // RogueServerConn is the native twin of the client-side handshake model's peer: the client end of a connection
